@@ -5,6 +5,8 @@
 //                                        4 NoEq (no operator==, no specialisation: the library's "never equal" fallback;
 //                                          only with -DEQ_HAVE_NOEQ, which bin/verif sets when harness/eq_probe_noeq.cpp compiles)
 //                                        5 Loose (a class with an ordinary operator== that is not declared noexcept)
+//                                        6 std::string holding 32 filler characters + the number (heap storage: a value the library moved
+//                                          from, where it should have kept or copied it, prints as "moved-from")
 //   ew <path 0 set | 1 operator= | 2 stream extraction> <v>
 //   ewcur <path 0 set(p.get()) | 1 p = p.get()>        the property's own value, through the reference get() returns
 //   eobs <0 valueAboutToChange | 1 valueChanged>
@@ -73,6 +75,12 @@ struct Conv<double> {
         static std::string show(const TYPE &x) { return std::to_string(x.v); } \
         static std::string text(long v) { return std::to_string(v); }         \
     };
+template<>
+struct Conv<std::string> {
+    static std::string make(long v) { return std::string(32, '#') + std::to_string(v); }
+    static std::string show(const std::string &x) { return x.size() <= 32 ? std::string("moved-from") : x.substr(32); }
+    static std::string text(long v) { return make(v); }
+};
 EQ_CONV(Mod10)
 EQ_CONV(Never)
 EQ_CONV(NoEq)
@@ -192,6 +200,9 @@ static void runFile(const char *path)
             break;
         case 5:
             runScript<Loose>(in, init, nA, nC);
+            break;
+        case 6:
+            runScript<std::string>(in, init, nA, nC);
             break;
         default:
 #ifdef EQ_HAVE_NOEQ
